@@ -595,6 +595,7 @@ fn private_roundtrip(addrs: &[SocketAddr], salt: u8) -> Option<Violation> {
 pub fn run(tier: Tier) -> i32 {
     let mut rep = Report::new("C16", tier);
     // the thorough bounds of this property take seconds: the quick tier runs them too
+    crate::report::note_tier(tier);
     let tier = { let _ = tier; Tier::Thorough };
     rep.rule("sweeps: (1) renet packet values: product of sequence / message id / slice index / slice count classes across the varint width boundaries {0,63,64,16383,16384,2^30-1,2^30,2^62-1}, channel ids {0,1,255}, every list of 0..3 messages with lengths {0,1,63,64,1200}, slice payloads {1,1199,1200}, every subset of {0..11} as an ack range list at 3-4 bases, 63/64-range lists: decode(encode(v)) == v; (2) every single-byte substitution by {00,01,3F,40,7F,80,BF,C0,FF}, every truncation and a one-byte extension of exemplar encodings: whatever decodes must re-encode and decode to the same value; (3) netcode packets: 7 kinds x 18 sequence values covering the 0..8-byte classes x 2 keys x payload lengths {0,1,1299,1300}; challenge tokens; (4) connect tokens with 1..32 v4/v6 addresses through write/read and seal/open, and byte mutations of serialized tokens; (5) ack world: the ack packet equals the recorded set");
     rep.assume("socket addresses are IP + port (flow info / scope id are not part of the netcode address format)");
@@ -802,6 +803,7 @@ pub fn replay(j: &J) -> i32 {
         Some("thorough") => Tier::Thorough,
         _ => Tier::Quick,
     };
+    crate::report::note_tier(tier);
     let tier = { let _ = tier; Tier::Thorough };
     let v = match j.get("kind").and_then(|k| k.as_str()) {
         Some("trace") => return ackworld::replay(j),
